@@ -98,3 +98,627 @@ def representableTuple : List Target → List Value → Bool
   | t :: ts, v :: vs => representable t v && representableTuple ts vs
   | _, _ => false
 end
+
+/-! ## Integers: serde's visitors are range checks -/
+
+theorem tryFrom_ok {t : IntTy} {n : Int} (h : fits t n) : tryFrom t n = .ok n := if_pos h
+theorem tryFrom_err {t : IntTy} {n : Int} (h : ¬ fits t n) : tryFrom t n = .error .invalid := if_neg h
+
+theorem visitI64_eq (t : IntTy) (i : Int64) : visitI64 t i = tryFrom t i.toInt := by
+  have h1 := i.le_toInt
+  have h2 := i.toInt_lt
+  by_cases hf : fits t i.toInt
+  · rw [tryFrom_ok hf]
+    cases t <;> simp only [visitI64, tryFrom_ok hf] <;> simp only [fits, IntTy.min, IntTy.max] at hf <;>
+      rw [if_pos (by omega)]
+  · rw [tryFrom_err hf]
+    cases t <;> simp only [visitI64, tryFrom_err hf, ite_self] <;> simp only [fits, IntTy.min, IntTy.max] at hf <;>
+      (exfalso; omega)
+
+theorem visitU64_eq (t : IntTy) (u : UInt64) : visitU64 t u = tryFrom t (u.toNat : Int) := by
+  have h2 := u.toNat_lt
+  by_cases hf : fits t (u.toNat : Int)
+  · rw [tryFrom_ok hf]
+    cases t <;> simp only [visitU64, tryFrom_ok hf]
+  · rw [tryFrom_err hf]
+    cases t <;> simp only [visitU64, tryFrom_err hf] <;> simp only [fits, IntTy.min, IntTy.max] at hf <;>
+      (exfalso; omega)
+
+/-- Integer targets: whichever path is taken (the crate's `try_into` or serde's visitor), the outcome
+is the range check on the source number. -/
+theorem decode_int_int64 (t : IntTy) (i : Int64) :
+    decode (.int t) (.int64 i) = if fits t i.toInt then .ok (.int t i.toInt) else .error .invalid := by
+  by_cases hf : fits t i.toInt
+  · simp only [decode, visitI64_eq, ite_self, tryFrom_ok hf, if_pos hf]
+  · simp only [decode, visitI64_eq, ite_self, tryFrom_err hf, if_neg hf]
+
+theorem decode_int_uint64 (t : IntTy) (u : UInt64) :
+    decode (.int t) (.uint64 u) =
+      if fits t (u.toNat : Int) then .ok (.int t (u.toNat : Int)) else .error .invalid := by
+  by_cases hf : fits t (u.toNat : Int)
+  · simp only [decode, visitU64_eq, ite_self, tryFrom_ok hf, if_pos hf]
+  · simp only [decode, visitU64_eq, ite_self, tryFrom_err hf, if_neg hf]
+
+theorem decode_int_of_isInt (t : IntTy) (v : Value) (h : isInt v = true) :
+    decode (.int t) v = if fits t (numOf v) then .ok (.int t (numOf v)) else .error .invalid := by
+  cases v <;> simp [isInt] at h
+  · exact decode_int_int64 t _
+  · exact decode_int_uint64 t _
+
+theorem decode_int_not_isInt (t : IntTy) (v : Value) (h : isInt v = false) :
+    decode (.int t) v = reject v := by
+  cases v <;> simp [isInt] at h <;> simp only [decode]
+
+
+/-! ## Side conditions -/
+
+mutual
+/-- no float target anywhere inside -/
+def noFloat : Target → Bool
+  | .f32 | .f64 => false
+  | .option t | .vec t => noFloat t
+  | .tuple ts => noFloatList ts
+  | _ => true
+def noFloatList : List Target → Bool
+  | [] => true
+  | t :: ts => noFloat t && noFloatList ts
+end
+
+mutual
+/-- no `Enum` value anywhere inside -/
+def noEnum : Value → Bool
+  | .enum _ => false
+  | .list vs => noEnumList vs
+  | _ => true
+def noEnumList : List Value → Bool
+  | [] => true
+  | v :: vs => noEnum v && noEnumList vs
+end
+
+theorem reject_not_ok (v : Value) (x : Dec) : reject v ≠ .ok x := by
+  cases v <;> simp [reject]
+
+theorem reject_noEnum {v : Value} (h : noEnum v = true) : reject v = .error .invalid := by
+  cases v <;> simp_all [reject, noEnum]
+
+
+/-! ### soundness up to float rounding -/
+
+
+theorem mapE_denotes (l : Bool) (f : Value → Res Dec)
+    (hf : ∀ v x, f v = .ok x → denotes l x v = true) :
+    ∀ vs xs, mapE f vs = .ok xs → denotesList l xs vs = true
+  | [], xs, h => by simp [mapE] at h; subst h; simp [denotesList]
+  | v :: vs, xs, h => by
+    simp only [mapE] at h
+    split at h
+    · rename_i x hx
+      split at h
+      · rename_i ys hys
+        simp at h; subst h
+        simp [denotesList, hf v x hx, mapE_denotes l f hf vs ys hys]
+      · simp at h
+    · simp at h
+
+mutual
+theorem decode_sound_aux : ∀ (τ : Target) (v : Value) (x : Dec),
+    decode τ v = .ok x → denotes true x v = true
+  | .int t, v, x, h => by
+    cases hv : isInt v
+    · rw [decode_int_not_isInt t v hv] at h; exact absurd h (reject_not_ok _ _)
+    · rw [decode_int_of_isInt t v hv] at h
+      split at h
+      · simp at h; subst h; simp [denotes, numVal_of_isInt hv]
+      · simp at h
+  | .f64, v, x, h => by
+    cases v <;> simp [decode, reject] at h <;> subst h <;> simp [denotes]
+  | .f32, v, x, h => by
+    cases v <;> simp [decode, reject] at h <;> subst h <;> simp [denotes]
+  | .bool, v, x, h => by
+    cases v <;> simp [decode, reject] at h <;> subst h <;> simp [denotes]
+  | .string, v, x, h => by
+    cases v <;> simp [decode, reject] at h <;> subst h <;> simp [denotes]
+  | .char, v, x, h => by
+    cases v <;> simp only [decode] at h <;> (try exact absurd h (reject_not_ok _ _))
+    split at h
+    · simp at h; subst h; simp [denotes]
+    · simp at h
+  | .unit, v, x, h => by
+    simp only [decode] at h; exact absurd h (reject_not_ok _ _)
+  | .option t, v, x, h => by
+    cases v <;> simp only [decode] at h
+    case null => simp at h; subst h; simp [denotes]
+    all_goals
+      split at h
+      · rename_i y hy
+        simp at h; subst h
+        simp [denotes, decode_sound_aux t _ y hy]
+      · simp at h
+  | .vec t, v, x, h => by
+    cases v <;> simp only [decode] at h <;> (try exact absurd h (reject_not_ok _ _))
+    split at h
+    · rename_i ys hys
+      simp at h; subst h
+      simp [denotes, mapE_denotes true (decode t) (decode_sound_aux t) _ ys hys]
+    · simp at h
+  | .tuple ts, v, x, h => by
+    cases v <;> simp only [decode] at h <;> (try exact absurd h (reject_not_ok _ _))
+    split at h
+    · simp at h
+    · split at h
+      · rename_i ys hys
+        simp at h; subst h
+        simp [denotes, decodeTuple_sound_aux ts _ ys hys (by omega)]
+      · simp at h
+theorem decodeTuple_sound_aux : ∀ (ts : List Target) (vs : List Value) (xs : List Dec),
+    decodeTuple ts vs = .ok xs → ts.length = vs.length → denotesList true xs vs = true
+  | [], vs, xs, h, hl => by
+    cases vs <;> simp at hl
+    simp [decodeTuple] at h; subst h; simp [denotesList]
+  | t :: ts, [], xs, h, hl => by simp at hl
+  | t :: ts, v :: vs, xs, h, hl => by
+    simp only [decodeTuple] at h
+    split at h
+    · rename_i x hx
+      split at h
+      · rename_i ys hys
+        simp at h; subst h
+        simp at hl
+        simp [denotesList, decode_sound_aux t v x hx, decodeTuple_sound_aux ts vs ys hys hl]
+      · simp at h
+    · simp at h
+end
+
+/-! ### exactness on representable values -/
+
+theorem mapE_exact (t : Target) (f : Value → Res Dec)
+    (hf : ∀ v, representable t v = true → ∃ x, f v = .ok x ∧ denotes false x v = true) :
+    ∀ vs, representableAll t vs = true → ∃ xs, mapE f vs = .ok xs ∧ denotesList false xs vs = true
+  | [], _ => ⟨[], by simp [mapE], by simp [denotesList]⟩
+  | v :: vs, h => by
+    simp only [representableAll, Bool.and_eq_true] at h
+    obtain ⟨x, hx, dx⟩ := hf v h.1
+    obtain ⟨xs, hxs, dxs⟩ := mapE_exact t f hf vs h.2
+    exact ⟨x :: xs, by simp [mapE, hx, hxs], by simp [denotesList, dx, dxs]⟩
+
+mutual
+theorem decode_exact_aux : ∀ (τ : Target) (v : Value), representable τ v = true →
+    ∃ x, decode τ v = .ok x ∧ denotes false x v = true
+  | .int t, v, h => by
+    cases v <;> simp [representable, numVal] at h
+    · exact ⟨_, by rw [decode_int_int64, if_pos h], by simp [denotes, numVal]⟩
+    · exact ⟨_, by rw [decode_int_uint64, if_pos h], by simp [denotes, numVal]⟩
+  | .f64, v, h => by
+    cases v <;> simp [representable] at h <;> simp [decode, denotes, h]
+  | .f32, v, h => by
+    cases v <;> simp [representable] at h <;> simp [decode, denotes, h]
+  | .bool, v, h => by
+    cases v <;> simp [representable] at h <;> simp [decode, denotes]
+  | .string, v, h => by
+    cases v <;> simp [representable] at h <;> simp [decode, denotes]
+  | .char, v, h => by
+    cases v <;> simp [representable] at h <;> simp [decode, denotes, h]
+  | .unit, v, h => by simp [representable] at h
+  | .option t, v, h => by
+    cases v <;> simp only [representable] at h
+    case null => exact ⟨.none, by simp [decode], by simp [denotes]⟩
+    all_goals
+      obtain ⟨x, hx, dx⟩ := decode_exact_aux t _ h
+      exact ⟨.some x, by simp [decode, hx], by simp [denotes, dx]⟩
+  | .vec t, v, h => by
+    cases v <;> simp only [representable] at h <;> (try simp at h)
+    obtain ⟨xs, hxs, dxs⟩ := mapE_exact t (decode t) (decode_exact_aux t) _ h
+    exact ⟨.list xs, by simp [decode, hxs], by simp [denotes, dxs]⟩
+  | .tuple ts, v, h => by
+    cases v <;> simp only [representable] at h <;> (try simp at h)
+    obtain ⟨xs, hl, hxs, dxs⟩ := decodeTuple_exact_aux ts _ h
+    exact ⟨.tuple xs, by simp [decode, hl, hxs], by simp [denotes, dxs]⟩
+theorem decodeTuple_exact_aux : ∀ (ts : List Target) (vs : List Value), representableTuple ts vs = true →
+    ∃ xs, ts.length = vs.length ∧ decodeTuple ts vs = .ok xs ∧ denotesList false xs vs = true
+  | [], [], _ => ⟨[], rfl, by simp [decodeTuple], by simp [denotesList]⟩
+  | [], _ :: _, h => by simp [representableTuple] at h
+  | _ :: _, [], h => by simp [representableTuple] at h
+  | t :: ts, v :: vs, h => by
+    simp only [representableTuple, Bool.and_eq_true] at h
+    obtain ⟨x, hx, dx⟩ := decode_exact_aux t v h.1
+    obtain ⟨xs, hl, hxs, dxs⟩ := decodeTuple_exact_aux ts vs h.2
+    exact ⟨x :: xs, by simp [hl], by simp [decodeTuple, hx, hxs], by simp [denotesList, dx, dxs]⟩
+end
+
+/-! ### only representable values are accepted (targets without floats) -/
+
+theorem mapE_repr (t : Target) (f : Value → Res Dec)
+    (hf : ∀ v x, f v = .ok x → representable t v = true) :
+    ∀ vs xs, mapE f vs = .ok xs → representableAll t vs = true
+  | [], _, _ => by simp [representableAll]
+  | v :: vs, xs, h => by
+    simp only [mapE] at h
+    split at h
+    · rename_i x hx
+      split at h
+      · rename_i ys hys
+        simp [representableAll, hf v x hx, mapE_repr t f hf vs ys hys]
+      · simp at h
+    · simp at h
+
+mutual
+theorem decode_ok_repr_aux : ∀ (τ : Target) (v : Value) (x : Dec), noFloat τ = true →
+    decode τ v = .ok x → representable τ v = true
+  | .int t, v, x, _, h => by
+    cases hv : isInt v
+    · rw [decode_int_not_isInt t v hv] at h; exact absurd h (reject_not_ok _ _)
+    · rw [decode_int_of_isInt t v hv] at h
+      split at h
+      · rename_i hf
+        simp [representable, numVal_of_isInt hv, hf]
+      · simp at h
+  | .f64, _, _, hn, _ => by simp [noFloat] at hn
+  | .f32, _, _, hn, _ => by simp [noFloat] at hn
+  | .bool, v, x, _, h => by
+    cases v <;> simp [decode, reject] at h <;> simp [representable]
+  | .string, v, x, _, h => by
+    cases v <;> simp [decode, reject] at h <;> simp [representable]
+  | .char, v, x, _, h => by
+    cases v <;> simp only [decode] at h <;> (try exact absurd h (reject_not_ok _ _))
+    split at h
+    · rename_i hs; simp [representable, hs]
+    · simp at h
+  | .unit, v, x, _, h => by
+    simp only [decode] at h; exact absurd h (reject_not_ok _ _)
+  | .option t, v, x, hn, h => by
+    simp only [noFloat] at hn
+    cases v <;> simp only [decode] at h
+    case null => simp [representable]
+    all_goals
+      split at h
+      · rename_i y hy
+        simp only [representable]
+        exact decode_ok_repr_aux t _ y hn hy
+      · simp at h
+  | .vec t, v, x, hn, h => by
+    simp only [noFloat] at hn
+    cases v <;> simp only [decode] at h <;> (try exact absurd h (reject_not_ok _ _))
+    split at h
+    · rename_i ys hys
+      simp only [representable]
+      exact mapE_repr t (decode t) (fun v x => decode_ok_repr_aux t v x hn) _ ys hys
+    · simp at h
+  | .tuple ts, v, x, hn, h => by
+    simp only [noFloat] at hn
+    cases v <;> simp only [decode] at h <;> (try exact absurd h (reject_not_ok _ _))
+    split at h
+    · simp at h
+    · split at h
+      · rename_i ys hys
+        simp only [representable]
+        exact decodeTuple_ok_repr_aux ts _ ys hn hys (by omega)
+      · simp at h
+theorem decodeTuple_ok_repr_aux : ∀ (ts : List Target) (vs : List Value) (xs : List Dec),
+    noFloatList ts = true → decodeTuple ts vs = .ok xs → ts.length = vs.length →
+    representableTuple ts vs = true
+  | [], vs, xs, _, h, hl => by
+    cases vs <;> simp at hl
+    simp [representableTuple]
+  | t :: ts, [], xs, _, h, hl => by simp at hl
+  | t :: ts, v :: vs, xs, hn, h, hl => by
+    simp only [noFloatList, Bool.and_eq_true] at hn
+    simp only [decodeTuple] at h
+    split at h
+    · rename_i x hx
+      split at h
+      · rename_i ys hys
+        simp at hl
+        simp [representableTuple, decode_ok_repr_aux t v x hn.1 hx,
+          decodeTuple_ok_repr_aux ts vs ys hn.2 hys hl]
+      · simp at h
+    · simp at h
+end
+
+/-! ### panics come from `Enum` values only -/
+
+theorem mapE_no_panic (f : Value → Res Dec)
+    (hf : ∀ v, noEnum v = true → f v ≠ .error .panic) :
+    ∀ vs, noEnumList vs = true → mapE f vs ≠ .error .panic
+  | [], _ => by simp [mapE]
+  | v :: vs, h => by
+    simp only [noEnumList, Bool.and_eq_true] at h
+    have h1 := hf v h.1
+    have h2 := mapE_no_panic f hf vs h.2
+    simp only [mapE]
+    split
+    · split
+      · simp
+      · rename_i e he; intro hc; simp at hc; subst hc; exact h2 he
+    · rename_i e he; intro hc; simp at hc; subst hc; exact h1 he
+
+mutual
+theorem decode_no_panic_aux : ∀ (τ : Target) (v : Value), noEnum v = true →
+    decode τ v ≠ .error .panic
+  | .int t, v, hv => by
+    cases hi : isInt v
+    · rw [decode_int_not_isInt t v hi, reject_noEnum hv]; simp
+    · rw [decode_int_of_isInt t v hi]; split <;> simp
+  | .f64, v, hv => by
+    cases v <;> simp [decode, reject] <;> simp [noEnum] at hv
+  | .f32, v, hv => by
+    cases v <;> simp [decode, reject] <;> simp [noEnum] at hv
+  | .bool, v, hv => by
+    cases v <;> simp [decode, reject] <;> simp [noEnum] at hv
+  | .string, v, hv => by
+    cases v <;> simp [decode, reject] <;> simp [noEnum] at hv
+  | .char, v, hv => by
+    cases v <;> simp [decode, reject] <;> (try simp [noEnum] at hv)
+    split <;> simp
+  | .unit, v, hv => by
+    simp only [decode, reject_noEnum hv]; simp
+  | .option t, v, hv => by
+    cases v <;> simp only [decode]
+    case null => simp
+    all_goals
+      have := decode_no_panic_aux t _ hv
+      split
+      · simp
+      · rename_i e he; intro hc; simp at hc; subst hc; exact this he
+  | .vec t, v, hv => by
+    cases v <;> simp only [decode] <;> (try (rw [reject_noEnum hv]; simp))
+    simp only [noEnum] at hv
+    have := mapE_no_panic (decode t) (decode_no_panic_aux t) _ hv
+    split
+    · simp
+    · rename_i e he; intro hc; simp at hc; subst hc; exact this he
+  | .tuple ts, v, hv => by
+    cases v <;> simp only [decode] <;> (try (rw [reject_noEnum hv]; simp))
+    simp only [noEnum] at hv
+    have := decodeTuple_no_panic_aux ts _ hv
+    split
+    · simp
+    · split
+      · simp
+      · rename_i e he; intro hc; simp at hc; subst hc; exact this he
+theorem decodeTuple_no_panic_aux : ∀ (ts : List Target) (vs : List Value), noEnumList vs = true →
+    decodeTuple ts vs ≠ .error .panic
+  | [], vs, _ => by simp [decodeTuple]
+  | t :: ts, [], _ => by simp [decodeTuple]
+  | t :: ts, v :: vs, h => by
+    simp only [noEnumList, Bool.and_eq_true] at h
+    have h1 := decode_no_panic_aux t v h.1
+    have h2 := decodeTuple_no_panic_aux ts vs h.2
+    simp only [decodeTuple]
+    split
+    · split
+      · simp
+      · rename_i e he; intro hc; simp at hc; subst hc; exact h2 he
+    · rename_i e he; intro hc; simp at hc; subst hc; exact h1 he
+end
+
+
+/-! ### lengths -/
+
+theorem mapE_length (f : Value → Res Dec) : ∀ vs xs, mapE f vs = .ok xs → xs.length = vs.length
+  | [], xs, h => by simp [mapE] at h; subst h; rfl
+  | v :: vs, xs, h => by
+    simp only [mapE] at h
+    split at h
+    · split at h
+      · rename_i ys hys
+        simp at h; subst h
+        simp [mapE_length f vs ys hys]
+      · simp at h
+    · simp at h
+
+theorem decodeTuple_length : ∀ (ts : List Target) (vs : List Value) (xs : List Dec),
+    decodeTuple ts vs = .ok xs → xs.length = ts.length
+  | [], vs, xs, h => by simp [decodeTuple] at h; subst h; rfl
+  | t :: ts, [], xs, h => by simp [decodeTuple] at h
+  | t :: ts, v :: vs, xs, h => by
+    simp only [decodeTuple] at h
+    split at h
+    · split at h
+      · rename_i ys hys
+        simp at h; subst h
+        simp [decodeTuple_length ts vs ys hys]
+      · simp at h
+    · simp at h
+
+/-! ### rows -/
+
+theorem mem_insertSorted (kv : Name × Value) : ∀ (r : Row) (x : Name × Value),
+    x ∈ insertSorted kv r ↔ x = kv ∨ x ∈ r
+  | [], x => by simp [insertSorted]
+  | kv' :: rest, x => by
+    simp only [insertSorted]
+    split
+    · simp only [List.mem_cons, mem_insertSorted kv rest x]
+      constructor
+      · rintro (h | h | h) <;> simp [h]
+      · rintro (h | h | h) <;> simp [h]
+    · simp
+
+theorem mem_sortRow : ∀ (r : Row) (x : Name × Value), x ∈ sortRow r ↔ x ∈ r
+  | [], x => by simp [sortRow]
+  | kv :: rest, x => by
+    have ih := mem_sortRow rest x
+    simp only [sortRow, List.foldr_cons, List.mem_cons] at ih ⊢
+    rw [mem_insertSorted, ih]
+
+theorem lookupTarget_some_mem {fields : List (Name × Target)} {k : Name} {τ : Target}
+    (h : lookupTarget fields k = some τ) : (k, τ) ∈ fields := by
+  simp only [lookupTarget, Option.map_eq_some_iff] at h
+  obtain ⟨f, hf, rfl⟩ := h
+  have h1 := List.find?_some hf
+  have h2 := List.mem_of_find?_eq_some hf
+  simp at h1; subst h1; exact h2
+
+theorem lookupTarget_of_mem : ∀ {fields : List (Name × Target)} {k : Name} {τ : Target},
+    (fields.map (·.1)).Nodup → (k, τ) ∈ fields → lookupTarget fields k = some τ
+  | [], _, _, _, h => by simp at h
+  | f :: rest, k, τ, hn, h => by
+    simp only [List.map_cons, List.nodup_cons] at hn
+    simp only [List.mem_cons] at h
+    simp only [lookupTarget, List.find?_cons]
+    rcases h with h | h
+    · subst h; simp
+    · have : (f.1 == k) = false := by
+        apply Bool.eq_false_iff.mpr
+        intro hc
+        simp at hc
+        apply hn.1
+        rw [hc]
+        exact List.mem_map.mpr ⟨(k, τ), h, rfl⟩
+      rw [this]
+      exact lookupTarget_of_mem hn.2 h
+
+theorem lookupDec_some_mem {got : List (Name × Dec)} {k : Name} {x : Dec}
+    (h : lookupDec got k = some x) : (k, x) ∈ got := by
+  simp only [lookupDec, Option.map_eq_some_iff] at h
+  obtain ⟨f, hf, rfl⟩ := h
+  have h1 := List.find?_some hf
+  have h2 := List.mem_of_find?_eq_some hf
+  simp at h1; subst h1; exact h2
+
+theorem lookupDec_none_not_mem {got : List (Name × Dec)} {k : Name}
+    (h : lookupDec got k = none) (x : Dec) : (k, x) ∉ got := by
+  simp only [lookupDec, Option.map_eq_none_iff, List.find?_eq_none] at h
+  intro hm
+  have := h (k, x) hm
+  simp at this
+
+/-- every entry produced by the `visit_map` loop is the decoding of a row entry with that key by the
+type of the struct field with that name -/
+theorem decodePresent_sound (fields : List (Name × Target)) : ∀ (r : Row) (got : List (Name × Dec)),
+    decodePresent fields r = .ok got → ∀ k x, (k, x) ∈ got →
+      ∃ v τ, (k, v) ∈ r ∧ lookupTarget fields k = some τ ∧ decode τ v = .ok x
+  | [], got, h, k, x, hm => by simp [decodePresent] at h; subst h; simp at hm
+  | (k', v') :: rest, got, h, k, x, hm => by
+    simp only [decodePresent] at h
+    split at h
+    · rename_i τ hτ
+      split at h
+      · rename_i y hy
+        split at h
+        · rename_i out hout
+          simp at h; subst h
+          simp only [List.mem_cons] at hm
+          rcases hm with hm | hm
+          · simp at hm; obtain ⟨rfl, rfl⟩ := hm
+            exact ⟨v', τ, by simp, hτ, hy⟩
+          · obtain ⟨v, τ', h1, h2, h3⟩ := decodePresent_sound fields rest out hout k x hm
+            exact ⟨v, τ', by simp [h1], h2, h3⟩
+        · simp at h
+      · simp at h
+    · obtain ⟨v, τ', h1, h2, h3⟩ := decodePresent_sound fields rest got h k x hm
+      exact ⟨v, τ', by simp [h1], h2, h3⟩
+
+/-- every row entry whose key names a struct field produces an entry -/
+theorem decodePresent_complete (fields : List (Name × Target)) : ∀ (r : Row) (got : List (Name × Dec)),
+    decodePresent fields r = .ok got → ∀ k v τ, (k, v) ∈ r → lookupTarget fields k = some τ →
+      ∃ x, (k, x) ∈ got
+  | [], got, h, k, v, τ, hm, _ => by simp at hm
+  | (k', v') :: rest, got, h, k, v, τ, hm, hl => by
+    simp only [decodePresent] at h
+    simp only [List.mem_cons] at hm
+    split at h
+    · rename_i τ' hτ'
+      split at h
+      · rename_i y hy
+        split at h
+        · rename_i out hout
+          simp at h; subst h
+          rcases hm with hm | hm
+          · simp at hm; obtain ⟨rfl, rfl⟩ := hm
+            exact ⟨y, by simp⟩
+          · obtain ⟨x, hx⟩ := decodePresent_complete fields rest out hout k v τ hm hl
+            exact ⟨x, by simp [hx]⟩
+        · simp at h
+      · simp at h
+    · rename_i hnone
+      rcases hm with hm | hm
+      · simp at hm; obtain ⟨rfl, rfl⟩ := hm
+        rw [hl] at hnone; simp at hnone
+      · exact decodePresent_complete fields rest got h k v τ hm hl
+
+/-- the two lists have the same length and corresponding elements are related -/
+inductive Forall2 {α β : Type} (R : α → β → Prop) : List α → List β → Prop
+  | nil : Forall2 R [] []
+  | cons {a b as bs} : R a b → Forall2 R as bs → Forall2 R (a :: as) (b :: bs)
+
+theorem Forall2.imp_mem {α β : Type} {R S : α → β → Prop} {as : List α} {bs : List β}
+    (h : Forall2 R as bs) (hi : ∀ a ∈ as, ∀ b, R a b → S a b) : Forall2 S as bs := by
+  induction h with
+  | nil => exact .nil
+  | cons hd _ ih =>
+    exact .cons (hi _ (by simp) _ hd) (ih (fun a ha b hr => hi a (by simp [ha]) b hr))
+
+theorem Forall2.length_eq {α β : Type} {R : α → β → Prop} {as : List α} {bs : List β}
+    (h : Forall2 R as bs) : as.length = bs.length := by
+  induction h with
+  | nil => rfl
+  | cons _ _ ih => simp [ih]
+
+/-- What `decodeRow` guarantees for the field `k : τ` that came out as `x`. -/
+def FieldOk (row : Row) (k : Name) (τ : Target) (x : Dec) : Prop :=
+  (∃ v, (k, v) ∈ row ∧ decode τ v = .ok x) ∨
+  ((∀ v, (k, v) ∉ row) ∧ (∃ t, τ = .option t) ∧ x = .none)
+
+theorem assemble_spec (got : List (Name × Dec)) : ∀ (fields : List (Name × Target)) (out : List (Name × Dec)),
+    assemble got fields = .ok out →
+    Forall2 (fun f o => o.1 = f.1 ∧
+      (lookupDec got f.1 = some o.2 ∨
+        (lookupDec got f.1 = none ∧ (∃ t, f.2 = .option t) ∧ o.2 = .none))) fields out
+  | [], out, h => by simp [assemble] at h; subst h; exact .nil
+  | (k, τ) :: rest, out, h => by
+    simp only [assemble] at h
+    split at h
+    · rename_i x hx
+      split at h
+      · rename_i o ho
+        simp at h; subst h
+        refine .cons ⟨rfl, ?_⟩ (assemble_spec got rest o ho)
+        split at hx
+        · rename_i y hy; simp at hx; subst hx; exact .inl hy
+        · rename_i hnone
+          split at hx
+          · simp at hx; subst hx; exact .inr ⟨hnone, ⟨_, rfl⟩, rfl⟩
+          · simp at hx
+      · simp at h
+    · simp at h
+
+theorem decodeRow_spec (fields : List (Name × Target)) (row : Row) (out : List (Name × Dec))
+    (hn : (fields.map (·.1)).Nodup) (h : decodeRow fields row = .ok out) :
+    Forall2 (fun f o => o.1 = f.1 ∧ FieldOk row f.1 f.2 o.2) fields out := by
+  simp only [decodeRow] at h
+  split at h
+  · rename_i got hgot
+    have hs := decodePresent_sound fields _ got hgot
+    have hc := decodePresent_complete fields _ got hgot
+    have ha := assemble_spec got fields out h
+    -- strengthen pointwise, remembering membership in `fields`
+    have key : ∀ f ∈ fields, ∀ o : Name × Dec,
+        (o.1 = f.1 ∧ (lookupDec got f.1 = some o.2 ∨
+          (lookupDec got f.1 = none ∧ (∃ t, f.2 = .option t) ∧ o.2 = .none))) →
+        (o.1 = f.1 ∧ FieldOk row f.1 f.2 o.2) := by
+      intro f hf o ⟨h1, h2⟩
+      refine ⟨h1, ?_⟩
+      have hlt : lookupTarget fields f.1 = some f.2 := lookupTarget_of_mem hn hf
+      rcases h2 with h2 | ⟨h2, h3, h4⟩
+      · obtain ⟨v, τ', m1, m2, m3⟩ := hs f.1 o.2 (lookupDec_some_mem h2)
+        rw [hlt] at m2; simp at m2; subst m2
+        exact .inl ⟨v, (mem_sortRow row _).mp m1, m3⟩
+      · refine .inr ⟨?_, h3, h4⟩
+        intro v hv
+        obtain ⟨x, hx⟩ := hc f.1 v f.2 ((mem_sortRow row _).mpr hv) hlt
+        exact lookupDec_none_not_mem h2 x hx
+    exact ha.imp_mem key
+  · simp at h
+
+theorem decodePresent_insert_unknown (fields : List (Name × Target)) (k : Name) (v : Value)
+    (hk : lookupTarget fields k = none) : ∀ r : Row,
+    decodePresent fields (insertSorted (k, v) r) = decodePresent fields r
+  | [] => by simp [insertSorted, decodePresent, hk]
+  | (k', v') :: rest => by
+    simp only [insertSorted]
+    split
+    · simp only [decodePresent, decodePresent_insert_unknown fields k v hk rest]
+    · simp [decodePresent, hk]
+
+end TF.Decode
